@@ -1,14 +1,29 @@
 (* C03 — Encode then Decode is the identity on canonical values, a normal form otherwise. *)
 From Coq Require Import List ZArith NArith Bool.
 From Coq.Strings Require Import Byte.
-From OgRek Require Import Base Value Reader Decoder Encoder EncoderFacts.
+From OgRek Require Import Base Value Reader Decoder Encoder Norm EncoderFacts RoundTrip.
 Import ListNotations.
 
-(* STATUS: the round-trip theorem over all values is not proved yet.  What is proved here are
-   the facts the round trip rests on that need no decoder reasoning; the property itself is
-   decided on every run by the correspondence check (encoder model = implementation on the
-   bytes; decoder model = implementation on those bytes) and by the direct oracle
-   Decode(Encode(v)) = documented normal form of v, computed independently. *)
+(* STATUS.  C03_round_trip is the property for every value in the fragment  norm c v = Some t
+   (Model/Norm.v): None, bool, every int / uint width, *big.Int and big.Int, float32/float64
+   (protocol >= 1), string / named string / unicode / ByteString / Bytes / []byte (at the protocols
+   that have a direct opcode for them, length < 2^32), Tuple, []any and typed slices / arrays,
+   Class, Call, Ref, pointers, nil - nested to any depth, at every protocol 0..5, both StrictUnicode
+   settings, both PyDict settings, any prior decoder state, any trailing bytes.  t says what comes
+   back: the value itself for canonical values, ByteString as string with StrictUnicode off, the
+   documented normal form for the rest.  Not yet inside the fragment (decided on every run by the
+   correspondence check and the Decode(Encode(v)) oracle instead): maps, Dicts and structs (heap
+   objects), the protocol-0 text forms of strings, floats and persistent ids, Bytes below protocol 3,
+   []byte below protocol 5. *)
+
+Theorem C03_round_trip_partial : forall c pd v t st rest,
+  (0 <= e_proto c <= 5)%Z -> norm c v = Some t ->
+  snd (run_w (encode c v) None) = EOk /\
+  exists x st',
+    decode (dcfg_of c pd) st (output (encode c v) ++ rest) = ((Ok x, st'), rest) /\
+    erase x = Some t.
+Proof. exact encode_decode. Qed.
+Print Assumptions C03_round_trip_partial.
 
 (* Encode never modifies its argument: the model is a pure function of the value (trivially);
    on the implementation the harness compares a deep dump before and after every Encode. *)
@@ -34,4 +49,18 @@ Example C03_examples :
 Proof.
   intros p H. cbn in H.
   repeat (destruct H as [H|H]; [subst p; vm_compute; split; reflexivity|]). contradiction.
+Qed.
+
+(* the fragment is not empty: nested containers, every integer width boundary, big ints, strings *)
+Example C03_fragment_nonvacuous :
+  forall p, In p [1; 2; 3; 4; 5]%Z ->
+    norm (cfgp p) (RList [RInt 1; RInt (-129); RInt 70000; RUint 18446744073709551615; RBool true; RNone;
+                          RStr SPlain [x61; x0a; x22]; RTuple [RBig (-5); RCall [x6d] [x6e] [RClass [x61] [x62]]];
+                          RPtr false None (RRef (RTuple [RStr SByteString [xff]]))]) =
+    Some (TList [TInt 1; TInt (-129); TInt 70000; TBig 18446744073709551615; TBool true; TNone;
+                 TStr [x61; x0a; x22]; TTuple [TBig (-5); TCall [x6d] [x6e] [TClass [x61] [x62]]];
+                 TRef (TTuple [TStr [xff]])]).
+Proof.
+  intros p H. cbn in H.
+  repeat (destruct H as [H|H]; [subst p; vm_compute; reflexivity|]). contradiction.
 Qed.
